@@ -165,7 +165,9 @@ def do_urlencode(
     if isinstance(value, str) or not isinstance(value, abc.Iterable):
         return url_quote(value)
 
-    if isinstance(value, dict):
+    # Any mapping (dict, MappingProxyType, ChainMap, UserDict, ...) is encoded
+    # from its items; iterating it directly would yield its keys.
+    if isinstance(value, abc.Mapping):
         items: t.Iterable[tuple[str, t.Any]] = value.items()
     else:
         items = value  # type: ignore
